@@ -124,6 +124,11 @@ def step (E : Engine) (st : St) (l : List String) : St × String :=
   | "REQ" :: m :: p :: hs =>
     let req : Request := ⟨(hexOf m).toStringLossy, hexOf p, parseReqHdrs hs⟩
     (st, showOutcome st.R (st.R.serve E req))
+  | "NREQ" :: m :: p :: _ :: _ :: hs =>
+    -- another request is served on the same instance while this one is in flight: serving does not
+    -- change the router, so the outcome is that of the request alone
+    let req : Request := ⟨(hexOf m).toStringLossy, hexOf p, parseReqHdrs hs⟩
+    (st, showOutcome st.R (st.R.serve E req))
   | "TREQ" :: m :: p :: hs =>
     let req : Request := ⟨(hexOf m).toStringLossy, hexOf p, parseReqHdrs hs⟩
     (st, showOutcome st.R (st.R.serveTreeOnly E req))
@@ -170,10 +175,10 @@ def queries (_args : List String) (lines : List (List String)) : List String :=
         | some hp =>
           hp.map (fun p => s!"Q C {p.expr.toHex}") ++ go pats (hp.map (fun p => (p.canon, p.expr)) ++ hexprs) rest
       | op :: _ :: p :: hs =>
-        if op == "REQ" || op == "TREQ" then
+        if op == "REQ" || op == "TREQ" || op == "NREQ" then
           let segs := splitSlash (trimLeftSlash (hexOf p))
           let q1 := pats.flatMap fun pat => segs.map fun s => s!"Q F {pat.toHex} {s.toHex}"
-          let rh := parseReqHdrs hs
+          let rh := parseReqHdrs (if op == "NREQ" then hs.drop 2 else hs)
           let q2 := hexprs.filterMap fun (c, e) => (assocGet rh c).map fun v => s!"Q S {e.toHex} {v.toHex}"
           q1 ++ q2 ++ go pats hexprs rest
         else go pats hexprs rest
